@@ -155,6 +155,7 @@ func init() {
 						}
 						fs := env.NewFaultStore()
 						fs.Register("fault://c05")
+						c.Sample(map[string]interface{}{"origin_encoding": o.Enc, "content_type": o.CT, "body_bytes": len(o.Body), "path": path, "client_accept_encoding": ae})
 						e := getEnv(scfg, key)
 						freshCaches(scfg)
 						vtime.Set(vtime.Base)
